@@ -27,3 +27,25 @@ Theorem C01_walk_back :
   (can_redo St Df m = true <-> cursor St sp + 1 < length (log St sp)).
 Proof. exact cursor_semantics. Qed.
 Print Assumptions C01_walk_back.
+
+(* "Repeated undo walks back through the whole history the same way": after ANY valid history
+   (with undos and redos inside), k further undos leave the workbook in the state k places
+   before the cursor of the log, and undoing [cursor] times restores the initial workbook. *)
+From IronCalc Require Import UserModel.WalkBack.
+
+Theorem C01_walk_back_k :
+  forall (St Df : Type) (apply unapply : Df -> St -> St) s0 es k,
+  valid St Df apply unapply (init St Df s0) es ->
+  let sp := spec_run St Df (spec_init St s0) es in
+  st St Df (run St Df apply unapply (run St Df apply unapply (init St Df s0) es) (repeat Undo k))
+  = nth (cursor St sp - k) (log St sp) s0.
+Proof. exact walk_back_k. Qed.
+Print Assumptions C01_walk_back_k.
+
+Theorem C01_walk_back_to_the_start :
+  forall (St Df : Type) (apply unapply : Df -> St -> St) s0 es,
+  valid St Df apply unapply (init St Df s0) es ->
+  let sp := spec_run St Df (spec_init St s0) es in
+  st St Df (run St Df apply unapply (run St Df apply unapply (init St Df s0) es) (repeat Undo (cursor St sp))) = s0.
+Proof. exact walk_back_all. Qed.
+Print Assumptions C01_walk_back_to_the_start.
